@@ -466,6 +466,7 @@ func runC04(c *Ctx) {
 	// the reply to the command after a chunk depends on that command only: octets of a binary chunk
 	// (limit lifted) must leave no count behind that refuses the next command line
 	ruleLimiterBypass(c)
+	ruleNoReplyAfterClose(c) // "one reply per command": a reply written to a closed socket is no reply
 
 	// ---------- R-reply-count ----------
 	R.Rule("R-reply-count", "E2 path counting with callee summaries", "exactly one final reply on every entry-to-exit path of the dispatcher and of each command handler (intermediate 354/334 excluded; I/O-failure paths exempt)", 9)
@@ -663,35 +664,7 @@ func runC04(c *Ctx) {
 	}
 	R.Rule("R-binarymime-per-mail", "E2 never-before", "the BINARYMIME refusal of DATA reports this transaction's MAIL: handleMail clears the flag before it can be set and before the backend is asked", 1)
 	ruleBinarymimePerMail(c)
-	R.Rule("R-write-deadline-owner", "who-may-call + E3 guard facts", "the server arms a write deadline on the connection only where WriteTimeout is set (writeResponse re-arms it for every reply); nothing arms both deadlines at once: a read deadline must never expire a reply", 3)
-	nDl := 0
-	for _, f := range c.P.AllFuncs() {
-		if !inSmtp(f) || !(strings.HasPrefix(funcName(f), "(*Conn).") || strings.HasPrefix(funcName(f), "(*Server).")) {
-			continue
-		}
-		ff := c.F.Analyze(f)
-		allInstrs(f, func(in ssa.Instruction) {
-			for _, l := range c.stdLabels(in) {
-				switch l {
-				case "icall:iface:(net.Conn).SetDeadline":
-					nDl++
-					R.Ob(c.siteKey(in, "no combined deadline on the server side"), c.P.InstrPos(in), false, "SetDeadline also arms the write deadline: with WriteTimeout unset no reply re-arms it, so a reply written later than the read timeout (slow backend, idle client) is silently lost and so is every reply after it")
-				case "icall:iface:(net.Conn).SetWriteDeadline":
-					nDl++
-					ok := false
-					for a := range ff.At(in) {
-						if strings.Contains(a, "WriteTimeout != 0") || strings.Contains(a, "WriteTimeout > 0") {
-							ok = true
-						}
-					}
-					R.Ob(c.siteKey(in, "write deadline only where WriteTimeout is set"), c.P.InstrPos(in), ok, fmt.Sprintf("write deadline armed without a WriteTimeout != 0 guard (facts: %v)", ff.At(in).list()))
-				case "icall:iface:(net.Conn).SetReadDeadline":
-					nDl++
-				}
-			}
-		})
-	}
-	R.Ob("deadline calls/found", "-", nDl >= 3, fmt.Sprintf("%d deadline calls on the server side", nDl))
+	ruleWriteDeadlineOwner(c)
 	R.Rule("R-sasl-decode", "E4", "a zero-length SASL response is handed to the mechanism as an empty (non-nil) slice: otherwise a spurious 334 is sent and the following command is swallowed as SASL data", 2)
 	ruleSASLDecode(c)
 	R.Rule("R-status-fill-shape", "E1", "in LMTP every accepted recipient occurrence gets a reply: fillRemaining loops a non-blocking send over every recipient channel until it is full", 2)
@@ -1086,4 +1059,41 @@ func ruleVerdictSources(c *Ctx) {
 		}
 		R.Ob(c.siteKey(site, "verdict source"), c.P.InstrPos(site), ok, why)
 	}
+}
+
+// ruleWriteDeadlineOwner (C04, C13, C17): on the server side only writeResponse arms a write deadline, and only when
+// WriteTimeout is set; nothing arms both directions at once. A read deadline that also covers writes silently loses
+// every reply written later than ReadTimeout after the command line was read: the verdict of a slow delivery, the
+// later per-recipient LMTP replies.
+func ruleWriteDeadlineOwner(c *Ctx) {
+	R := c.R
+	R.Rule("R-write-deadline-owner", "who-may-call + E3 guard facts", "the server arms a write deadline on the connection only where WriteTimeout is set (writeResponse re-arms it for every reply); nothing arms both deadlines at once: a read deadline must never expire a reply", 3)
+	nDl := 0
+	for _, f := range c.P.AllFuncs() {
+		if !inSmtp(f) || !(strings.HasPrefix(funcName(f), "(*Conn).") || strings.HasPrefix(funcName(f), "(*Server).")) {
+			continue
+		}
+		ff := c.F.Analyze(f)
+		allInstrs(f, func(in ssa.Instruction) {
+			for _, l := range c.stdLabels(in) {
+				switch l {
+				case "icall:iface:(net.Conn).SetDeadline":
+					nDl++
+					R.Ob(c.siteKey(in, "no combined deadline on the server side"), c.P.InstrPos(in), false, "SetDeadline also arms the write deadline: with WriteTimeout unset no reply re-arms it, so a reply written later than the read timeout (slow backend, idle client) is silently lost and so is every reply after it")
+				case "icall:iface:(net.Conn).SetWriteDeadline":
+					nDl++
+					ok := false
+					for a := range ff.At(in) {
+						if strings.Contains(a, "WriteTimeout != 0") || strings.Contains(a, "WriteTimeout > 0") {
+							ok = true
+						}
+					}
+					R.Ob(c.siteKey(in, "write deadline only where WriteTimeout is set"), c.P.InstrPos(in), ok, fmt.Sprintf("write deadline armed without a WriteTimeout != 0 guard (facts: %v)", ff.At(in).list()))
+				case "icall:iface:(net.Conn).SetReadDeadline":
+					nDl++
+				}
+			}
+		})
+	}
+	R.Ob("deadline calls/found", "-", nDl >= 3, fmt.Sprintf("%d deadline calls on the server side", nDl))
 }
